@@ -18,7 +18,7 @@ CLAIMED = {
         text="TLC checks that the transcribed five-state recogniser agrees with the reference receiver RefRecv on every prefix of every stream up to a "
              "length bound and that decode(encode(m)) = m; every real SMTP session (all short streams, split reads, trailing command bytes, random "
              "long streams, payloads produced by the real client) is a record judged by TLC with the monitor DecVerdict. "
-             "Added since: round trip through the real client with bare CRs, sessions under a size limit, recognised commands after the terminator with predicted replies, a preamble that fails only under a read cap is a verdict.",
+             "Added since: round trip through the real client with bare CRs, sessions under a size limit, recognised commands after the terminator with predicted replies, a preamble that fails only under a read cap is a verdict. Long streams under read caps just below, at and around the size of the daemon's input buffer (1024) and its halves; short writes by the daemon.",
         note="alphabet {CR,LF,'.',x}; the QMAILQUEUE stand-in records what the daemon hands to the queue; lines '.' CR x are left unconstrained (DESIGN 6.3)",
         design="5 C05"),
     "C06": dict(
@@ -51,7 +51,7 @@ CLAIMED = {
         text="The C04 clauses of the monitor (finished recipient attempted again, two attempts in flight, concurrency limit = min(configured, announced) exceeded, "
              "delivery number in use, delivered twice without crash) are invariants of the TLC model and are evaluated on every history of the real daemon, including a "
              "crash before each of its mutating calls with marks kept or individually lost (the exemption for lost marks is computed by the crash model, not by the harness). "
-             "Added since: wide histories (140-255 recipients) around the one-byte announced limit 127/128/255; clause MessagePreprocessedAgainAfterDeliveriesStarted.",
+             "Added since: wide histories (140-255 recipients) around the one-byte announced limit 127/128/255; clause MessagePreprocessedAgainAfterDeliveriesStarted. A second qmail-send started while attempts are outstanding must refuse and write no delivery command (histories second-daemon-*).",
         note="as C03",
         design="5 C04"),
     "C07": dict(
@@ -118,7 +118,7 @@ CLAIMED = {
         technique="TLC model check of the transcribed square-root loop, back-off formula and array heap + TLC validation of records from the real squareroot()/nextretry()/prioq.c (seam), C sweep of the post-condition over the 2^32 domain",
         text="TLC proves on the complete domain of a scaled loop that the shift-and-subtract algorithm is the floor square root, that the back-off time is "
              "strictly in the future, and that the array heap keeps order/minimum/bag for every operation sequence up to a bound; results of the real functions "
-             "(square boundaries, seeded grids, every operation sequence of the model's domain, long random ones) are records judged by TLC.",
+             "(square boundaries, seeded grids, every operation sequence of the model's domain, long random ones) are records judged by TLC. Daemon level: strict histories under the virtual clock (retry times probed from both sides, across TERM/restart and ALRM, queue lifetimes, several due messages on one slot, one channel saturated while the other waits for a retry time) judged by the C15 clauses of the monitor.",
         note="function-level seams as in tests/; 32-bit TLC integers: ages >= 2^31 only in the C sweep; daemon-level retry histories (virtual clock) are added by the queue-manager controller",
         design="5 C15"),
     "C16": dict(
@@ -140,15 +140,15 @@ CLAIMED = {
         technique="TLA+ monitors for the cleaner and spawner request grammars, TLC model check of the transcribed request check, TLC validation of shim-recorded unlink/open/exec/status events of the real qmail-clean and qmail-rspawn",
         text="TLC checks the transcription of qmail-clean's request check against the monitor CleanVerdict for every request of a bounded domain; the real "
              "qmail-clean (every unlink path and status byte recorded by the shim, attributed per request by sentinel requests) and the real qmail-rspawn "
-             "(every open path, every report, every started delivery agent) are driven over enumerated and random hostile streams and each record is judged by TLC.",
-        note="part 3 (hostile bytes on qmail-send's report channels) is covered once the daemon controller exists; shim trace assumed complete for unlink/open/write",
+             "(every open path, every report, every started delivery agent) are driven over enumerated and random hostile streams and each record is judged by TLC. Added since: hostile bytes on qmail-send's report channels (part 3, the C18 clauses of the monitor), the local spawner relaying hostile program output, a spawner that does not finish is run again and what it did answer is judged.",
+        note="shim trace assumed complete for unlink/open/write; report frames are cut out of the bytes each read of the daemon returns",
         design="5 C18"),
     "C19": dict(
         technique="TLA+ reference model of RFC 1939 as qualified by qmail-pop3d(8)/qmail-popup(8) with three program-layer machines (blast loop, pop3d sessions, popup) checked by TLC + TLC validation of 12k real qmail-pop3d/qmail-popup sessions on generated maildirs",
         text="Pop3.tla is the reference model (stepwise monitors over command, reply class, payload bytes, descriptor-3 bytes, maildir before/after); Pop3Impl.tla transcribes scan_ulong/msgno/top/blast/"
              "prioq/getlist and drives Pop3Blast (every message over {LF,CR,'.',x} up to length 6/8 x RETR/TOP), Pop3d (every command sequence of any length over verbs x 22 argument texts x 4 maildirs "
              "x vanishing files) and Pop3Popup in lock step with the reference model, with branch witnesses required. The real qmail-pop3d runs as an unprivileged uid command by command (files removed "
-             "between commands), qmail-popup with a stand-in checker; every session is a record judged by TLC.",
+             "between commands), qmail-popup with a stand-in checker; every session is a record judged by TLC. Added since: authentication sequences of three / four steps, sessions started by uid 0 with only the effective uid lowered, lines of 8192..12000 bytes.",
         note="any consistent numbering accepted (order not in the statement); STAT's count free; as-found scan_ulong transcription (ScanWraps) kept and required to fail",
         design="5 C19"),
 }
